@@ -255,6 +255,36 @@ def _restore_list(lst):
         lst[:] = old
 
 
+@contextlib.contextmanager
+def _restore_sys_lists(*names):
+    """
+    Restore list attributes of :py:mod:`sys` (like `sys.argv` and
+    `sys.path`) after running code which potentially modifies or
+    rebinds them: both the list objects found on entry and their
+    contents are put back, also when the code raises.
+
+    Example
+    -------
+    >>> import sys
+    >>>
+    >>>
+    >>> old, old_content = sys.argv, list(sys.argv)
+    >>> with _restore_sys_lists('argv'):
+    ...     sys.argv = ['foo']
+    ...
+    >>> assert sys.argv is old and sys.argv == old_content
+    """
+    saved = [(name, getattr(sys, name)) for name in names]
+    with contextlib.ExitStack() as stack:
+        for _, lst in saved:
+            stack.enter_context(_restore_list(lst))
+        try:
+            yield
+        finally:
+            for name, lst in saved:
+                setattr(sys, name, lst)
+
+
 def pre_parse_single_arg_directive(args, flag, sep='--'):
     """
     Pre-parse high-priority single-argument directives like `-m module`
@@ -315,8 +345,7 @@ def pre_parse_single_arg_directive(args, flag, sep='--'):
     return args[:i_flag], args[i_flag + 1], args[i_flag + 2:]
 
 
-@_restore_list(sys.argv)
-@_restore_list(sys.path)
+@_restore_sys_lists('argv', 'path')
 def main(args=None):
     """
     Runs the command line interface
